@@ -103,6 +103,17 @@ def check(ctx, case, obs):
     r = ctx.driver.call("tojson.reload_own", slots=w["slots"], **{"del": ["_survey_element_xpath", "extra_data"]})
     if r["d1"] != r["d2"]:
         ctx.mismatch("model own-slot dump not stable", case, r["d1"], r["d2"])
+    # the builder model: toJson (fromJson dump) must be the implementation's second dump (fragment: see FromJson.lean)
+    if "j2" in obs:
+        r = ctx.driver.call("tojson.reload_tree", d=want)
+        if r.get("ok"):
+            ctx.count("model:fromjson:answered")
+            w2 = C.enc(jsonable(obs["j2"]))
+            if r["dump"] != w2:
+                ctx.mismatch("ToJson.toJson (fromJson dump) vs dump of the reloaded survey", case,
+                             C.dict_diff(unwire(w2), unwire(r["dump"])), "see diff (impl vs model)")
+        else:
+            ctx.count("model:fromjson:unsupported")
     # options: model dump / reload / dump against the implementation's Option(**dump).to_json_dict()
     from pyxform.question import Option
 
